@@ -40,6 +40,7 @@ func checkC01(c *Ctx, r *Report) {
 	borrow(c, r, checkC16, "C16.R2.no-buffer-alias", "C01.R4.no-buffer-alias", 100, "an unpacked record holds copies of the octets it was decoded from, not slices of the caller's buffer", nil, "the unpacked message equals the original only until the caller reuses its buffer; after that its addresses and opaque fields are whatever the buffer holds")
 	rdataConfined(c, r, "C01.R2.rdata-confined", "the fields that read to the end of the buffer (txt, octet, nsec, opt, svcb pairs, apl) run into the records that follow: a well-formed record inside a well-formed message is refused or swallows the next record's octets")
 	nsecZeroed(c, r, "C01.R2.nsec-zeroed")
+	c08StringCap(c, r, "C01.R1.string-cap")
 }
 
 // sideStructs are the hand-written wire-format structs with their packers.
